@@ -443,7 +443,8 @@ STATE_KINDS = {
     # attributes of the multi-body model whose XML names carry two capitals in a row (velocityYFront, positionZRear)
     "CustomMB": lambda V, n, t: st.CustomState(time_step=t, position=np.array([real(V, n + "_x"), real(V, n + "_y")]), orientation=real(V, n + "_th", -TWO_PI, TWO_PI),
                                                 velocity=real(V, n + "_v", -100, 100), velocity_y_front=real(V, n + "_vyf", -10, 10),
-                                                position_z_rear=real(V, n + "_pzr", -1, 1), yaw_rate=real(V, n + "_yaw", -5, 5)),
+                                                position_z_rear=real(V, n + "_pzr", -1, 1), yaw_rate=real(V, n + "_yaw", -5, 5),
+                                                delta_y_f=real(V, n + "_dyf", -1, 1), delta_y_r=real(V, n + "_dyr", -1, 1)),
 }
 
 
